@@ -372,6 +372,22 @@ def differential(rep, binary, cases, sdir, tag, canon=None, oracle=None, clause=
         mpath = path
     model = run_model(mpath)
     canon = canon or (lambda c, l: l)
+    if len(impl) > len(cases) and impl[-1].startswith("ABORT-AT-EXIT"):
+        # failure reported when the process exits (typically LeakSanitizer): find one case that reproduces it alone
+        reason = impl[-1]
+        culprit = None
+        probe = os.path.join(sdir, tag + ".probe")
+        for k, c in enumerate(cases[:60]):
+            write_cases(probe, [c])
+            o = run_impl(binary, probe, args=impl_args)
+            if len(o) > 1 and o[-1].startswith("ABORT-AT-EXIT"):
+                culprit = c; reason = o[-1]; break
+        f = dict(kind="abort", clause="at-exit", reason=re.sub(r"\d+", "N", reason[:60]), has_input=culprit is not None)
+        if abort_fields:
+            f.update(abort_fields(culprit or cases[0], reason))
+        rep.violation(f, "implementation fails at process exit (%s)%s" % (reason, (" on case `%s`" % culprit[:200]) if culprit else " (no single case of the first 60 reproduces it alone)"),
+                      dict(case=culprit, cases_file_head=cases[:5], impl=reason))
+        impl = impl[:len(cases)]
     if len(impl) < len(cases):
         impl += ["ABORT: missing output"] * (len(cases) - len(impl))
     if len(model) < len(cases):
